@@ -354,7 +354,7 @@ func c05Case(c *core.Ctx, idx int) {
 		}
 		rec.Distinct("codec_kinds", core.Hash64(fmt.Sprintf("%T", codec)))
 		for j := 0; j < nv; j++ {
-			vg := &gen.VG{R: rv, C: tc.cfg, Budget: 60}
+			vg := &gen.VG{R: rv, C: tc.cfg, Budget: 60, EmptyNumber: true}
 			v := vg.Value(st.t, st.opt)
 			if j == 0 {
 				v = reflect.New(st.t).Elem()
